@@ -92,7 +92,14 @@ static int B_RAW(opplan_t* pl, int role, int fill, unsigned arg, size_t bytes, s
   return pl->nb++;
 }
 static uint64_t rsl(rng_t* r, uint64_t n) { return stride_choice(n, (unsigned)(rng_u64(r) & 3)); }
-static uint64_t rsz(rng_t* r, uint64_t max) { return rng_u64(r) % (max + 1); }
+// limb counts: usually 0..max; one plan in eight on rings up to N = 1024 draws a larger count (up to 4*max + 5, i.e. 17
+// for max = 3): loops over limbs that are unrolled or blocked change regime there
+static __thread uint64_t plan_N;
+static uint64_t rsz(rng_t* r, uint64_t max) {
+  const uint64_t t = rng_u64(r);
+  if (plan_N && plan_N <= 1024 && ((t >> 32) & 7) == 0) return max + 1 + (t >> 40) % (3 * max + 5);
+  return t % (max + 1);
+}
 
 // ---------------------------------------------------------------- engine
 static void fill_buf(rng_t* r, const bufspec_t* b, void* p, size_t bytes) {
@@ -166,10 +173,10 @@ static void fill_buf(rng_t* r, const bufspec_t* b, void* p, size_t bytes) {
     default:
       break;
   }
-  // structure on top of the random words (8-byte element types only; the domains of the fills are closed under these):
-  // one fill in eight becomes a run of one value, one in eight periodic with period 2, 3, 4 or 8, one in sixteen has
-  // extreme-magnitude elements of its domain at both ends
-  if (b->fill == F_I64 || b->fill == F_DBL || b->fill == F_DBLINT || b->fill == F_U64 || b->fill == F_U32A) {
+  // structure on top of the random words (8-byte element types only; the domains of the fills are closed under it)
+  if (b->fill == F_I64) structure_words(r, p, bytes / 8, b->fillarg);
+  else if (b->fill == F_U64) structure_words(r, p, bytes / 8, 33);  // unsigned lanes: everything but the signed scaling
+  else if (b->fill == F_DBL || b->fill == F_DBLINT || b->fill == F_U32A) {
     uint64_t* w = p;
     const size_t nw = bytes / 8;
     const uint64_t t = rng_u64(r);
@@ -196,6 +203,7 @@ void op_exec(const opdef_t* o, const env_t* env, uint64_t seed, int prefill, uns
   rng_seed(&r, seed, hash_bytes(sname, strlen(sname), 5));
   opplan_t pl;
   memset(&pl, 0, sizeof pl);
+  plan_N = env->N;
   o->plan(&pl, &r, env);
   snprintf(res->shape, sizeof res->shape, "%s", pl.shape[0] ? pl.shape : "-");
   if (pl.skip) {
